@@ -237,8 +237,20 @@ def check_fold(ctx, repo: Repo, pid: str):
         else:
             ctx.ok("FLOATTOL", f"{tag}.copy.threshold", "the fold tests the presence of an entry exactly (no magnitude threshold)", where,
                    src(par.test) if par is not None else "")
+    # the antipodal column may be fetched first:  oj = MAP.get(j)  ...  if el and oj is not None: M[i][oj] = M[i][j]
+    get_alias = {}
+    if amap is not None:
+        for a_ in ast.walk(body):
+            if isinstance(a_, ast.Assign) and len(a_.targets) == 1 and isinstance(a_.targets[0], ast.Name) and isinstance(a_.value, ast.Call) and \
+                    isinstance(a_.value.func, ast.Attribute) and a_.value.func.attr == "get" and isinstance(a_.value.func.value, ast.Name) and \
+                    a_.value.func.value.id == amap and len(a_.value.args) == 1 and not a_.value.keywords:
+                get_alias[a_.targets[0].id] = a_.value.args[0]
     for st, (m_, i_, j_) in ([] if found_copy else copies):
         # target column must be map[j]
+        via_get = None
+        if isinstance(j_, ast.Name) and j_.id in get_alias:
+            via_get = j_.id
+            j_ = ast.Subscript(value=ast.Name(id=amap, ctx=ast.Load()), slice=get_alias[via_get], ctx=ast.Load())
         if not (isinstance(j_, ast.Subscript) and isinstance(j_.value, ast.Name) and (amap is None or j_.value.id == amap)):
             continue
         found_copy = True
@@ -259,7 +271,7 @@ def check_fold(ctx, repo: Repo, pid: str):
             par = getattr(par, "_parent", None)
         if par is not None:
             gn = _names(par.test)
-            ctx.check((amap is None or amap in gn), "FOLD", f"{tag}.copy.guard", "the copy is guarded by membership of j in the antipode map",
+            ctx.check((amap is None or amap in gn or (via_get is not None and via_get in gn)), "FOLD", f"{tag}.copy.guard", "the copy is guarded by membership of j in the antipode map",
                       where, src(par.test), witness=src(par.test))
             # the "is there an entry" part of the guard must be exact (truthiness / != 0): the three matrices (Boolean adjacency, border
             # areas, centre distances) are folded by this one routine, and a magnitude threshold folds them differently
